@@ -12,6 +12,11 @@
 (*   q.popped  points handed out (every queue has lost that many values)   *)
 (*   q.seen    packets consumed                                            *)
 (*   q.bytes   stream bytes consumed (for the memory bound)                *)
+(*   q.work    bytes moved by the LAST advance: every stream whose record  *)
+(*             occupies bits is re-assembled as (bytes not yet consumed)   *)
+(*             + (bytes of the packet) -- ByteStreamReadBuffer::append;    *)
+(*             the stream bytes of a zero-width record are discarded       *)
+(*   q.moved   the sum of q.work over all advances (for the time bound)    *)
 (*                                                                         *)
 (* Values are identified by their index in the record's stream: the queue  *)
 (* of record i holds the values number popped+1 .. popped+ql[i] of stream  *)
@@ -46,7 +51,7 @@ QAllZero(w) == \A i \in 1..Len(w) : w[i] = 0
 \* in a packet could never be known)
 QNewOk(w) == ~QAllZero(w)
 QNew(w) == [w |-> w, bits |-> QTup(LAMBDA i : 0, 1, Len(w)), ql |-> QTup(LAMBDA i : 0, 1, Len(w)),
-            taken |-> QTup(LAMBDA i : 0, 1, Len(w)), popped |-> 0, seen |-> 0, bytes |-> 0]
+            taken |-> QTup(LAMBDA i : 0, 1, Len(w)), popped |-> 0, seen |-> 0, bytes |-> 0, work |-> 0, moved |-> 0]
 
 \* QueueReader::available : complete points across all queues
 QAvail(q) == IF Len(q.w) = 0 THEN 0 ELSE QMinOver(q.ql, QTup(LAMBDA i : TRUE, 1, Len(q.w)), 1)
@@ -54,9 +59,13 @@ QAvail(q) == IF Len(q.w) = 0 THEN 0 ELSE QMinOver(q.ql, QTup(LAMBDA i : TRUE, 1,
 \* QueueReader::advance on a data packet: append every stream, unpack every complete value of the
 \* records that occupy bits, then regenerate values of zero-width records up to the shortest of
 \* the other queues (never shrinking)
-QAdvanceData(q, sizes, fillcap) ==
+\* bytes one append moves: what is left of the stream (whole bytes that still hold unconsumed bits) plus the new bytes
+QHeldBytes(bits) == (bits + 7) \div 8
+\* `buffered` says for which records the stream bytes are kept (as built: those that occupy bits)
+QAdvanceDataB(q, sizes, fillcap, buffered) ==
     LET n    == Len(q.w)
-        nb   == QTup(LAMBDA i : q.bits[i] + 8 * sizes[i], 1, n)
+        nb   == QTup(LAMBDA i : IF buffered[i] THEN q.bits[i] + 8 * sizes[i] ELSE 0, 1, n)
+        wk   == QSum(QTup(LAMBDA i : IF buffered[i] THEN QHeldBytes(q.bits[i]) + sizes[i] ELSE 0, 1, n), 1)
         k    == QTup(LAMBDA i : IF q.w[i] = 0 THEN 0 ELSE nb[i] \div q.w[i], 1, n)
         ql1  == QTup(LAMBDA i : q.ql[i] + k[i], 1, n)
         m    == QMinOver(ql1, QTup(LAMBDA i : q.w[i] # 0, 1, n), 1)
@@ -66,9 +75,11 @@ QAdvanceData(q, sizes, fillcap) ==
                  !.ql = ql2,
                  !.taken = QTup(LAMBDA i : q.taken[i] + (ql2[i] - q.ql[i]), 1, n),
                  !.seen = @ + 1,
-                 !.bytes = @ + QSum(sizes, 1)]
+                 !.bytes = @ + QSum(sizes, 1),
+                 !.work = wk, !.moved = @ + wk]
+QAdvanceData(q, sizes, fillcap) == QAdvanceDataB(q, sizes, fillcap, QTup(LAMBDA i : q.w[i] # 0, 1, Len(q.w)))
 \* index and ignored packets are skipped
-QAdvanceOther(q) == [q EXCEPT !.seen = @ + 1]
+QAdvanceOther(q) == [q EXCEPT !.seen = @ + 1, !.work = 0]
 QAdvance(q, pkt, fillcap) == IF pkt.t = "data" THEN QAdvanceData(q, pkt.sizes, fillcap) ELSE QAdvanceOther(q)
 
 \* QueueReader::pop_point : one value from the head of every queue (callers ensure QAvail >= 1)
